@@ -24,11 +24,11 @@ type C01Call struct {
 }
 
 type C01Case struct {
-	Topo       kit.Topo  `json:"topo"`
-	Calls      []C01Call `json:"calls"`
-	GateReq    bool      `json:"gate_req"`   // hold request writes and release them one by one
-	GateReply  bool      `json:"gate_reply"` // hold reply writes likewise
-	Tape       []byte    `json:"tape"`
+	Topo      kit.Topo  `json:"topo"`
+	Calls     []C01Call `json:"calls"`
+	GateReq   bool      `json:"gate_req"`   // hold request writes and release them one by one
+	GateReply bool      `json:"gate_reply"` // hold reply writes likewise
+	Tape      []byte    `json:"tape"`
 }
 
 func c01Reply(req, pad []byte) []byte {
